@@ -357,6 +357,22 @@ func (g *Gen) longSet() clip.Paths64 {
 	return out
 }
 
+// manyLongSet: 17..40 paths of 33..90 vertices each (per-path work above
+// the small-input thresholds, many times in one call).
+func (g *Gen) manyLongSet() clip.Paths64 {
+	var out clip.Paths64
+	for i, n := 0, g.rng(17, 40); i < n; i++ {
+		nv := g.rng(33, 90)
+		if g.p(0.5) {
+			out = append(out, g.famRadial(nv&^1, 1))
+		} else {
+			out = append(out, g.famRadial(nv, 2))
+		}
+	}
+	g.spreadY(out)
+	return out
+}
+
 func (g *Gen) addPoolSet(p clip.Paths64, isD bool) int {
 	slack := 0
 	if g.p(0.5) {
@@ -440,6 +456,9 @@ func (g *Gen) initPool() {
 	}
 	if g.p(0.3) {
 		g.addPoolSet(g.longSet(), g.p(0.4))
+	}
+	if g.p(0.15) {
+		g.addPoolSet(g.manyLongSet(), g.p(0.4))
 	}
 }
 
